@@ -32,6 +32,18 @@ type Case struct {
 	Clients  []harness.ClientSpec `json:"clients,omitempty"`
 	Schedule []simrt.Decision     `json:"schedule,omitempty"` // explicit decision list (replay / minimised)
 	Extra    map[string]any       `json:"extra,omitempty"`
+	Prov     *ProvCase            `json:"prov,omitempty"` // class P: one step provider driven directly
+}
+
+// ShapeKey is the coarse signature of the workload (distinctness measure of the evidence).
+func (c *Case) ShapeKey() string {
+	if c.Program != nil {
+		return ShapeOf(c.Program)
+	}
+	if c.Prov != nil {
+		return c.Prov.Shape()
+	}
+	return c.Profile
 }
 
 // Violation is a failed oracle rule.
@@ -48,8 +60,6 @@ type Violation struct {
 // Spec turns a case into a harness run.
 func (c *Case) Spec(journal bool) harness.Spec {
 	sp := harness.Spec{
-		Text:     c.Program.YAML(),
-		Files:    c.Program.Files(),
 		Plan:     c.Plan,
 		Policy:   c.Policy,
 		MapMode:  c.MapMode,
@@ -59,8 +69,15 @@ func (c *Case) Spec(journal bool) harness.Spec {
 		KeepLogs: os.Getenv("VERIF_LOGS") != "",
 		Watch:    WatchGiveUp,
 	}
+	if c.Program != nil {
+		sp.Text, sp.Files = c.Program.YAML(), c.Program.Files()
+	}
 	if c.Schedule != nil {
 		sp.Replay = c.Schedule
+	}
+	if c.Prov != nil {
+		sp.Body = c.Prov.Body
+		return sp
 	}
 	if len(sp.Clients) == 0 {
 		sp.Clients = []harness.ClientSpec{{Name: "c0", Input: map[string]any(c.Doc)}}
@@ -303,8 +320,16 @@ func (st *Stats) Add(c *Case, r *harness.Result) {
 			break
 		}
 	}
-	if c.Program != nil && nontrivial && reached {
-		st.Distinct[hash64(ShapeOf(c.Program), strings.Join(ov, ","), fmt.Sprint(sig))] = true
+	if c.Prov != nil {
+		reached = true
+		for _, e := range r.Events {
+			if e.Kind == "notify" {
+				ov = append(ov, fmt.Sprintf("%v:%v:%v", e.Data["t"], e.Data["prev"], e.Data["out"]))
+			}
+		}
+	}
+	if nontrivial && reached {
+		st.Distinct[hash64(c.ShapeKey(), strings.Join(ov, ","), fmt.Sprint(sig))] = true
 	}
 }
 
